@@ -1199,6 +1199,12 @@ def rule_data_format(ctx):
                                 "(while STRT/STOP/STEP keep the full value)" % unparse(sub))
         if isinstance(sub, ast.Call) and ast.unparse(sub.func).split(".")[-1] in ("shorten", "truncate"):
             problems.append("the formatted sample is shortened with `%s`" % unparse(sub))
+    # every data cell goes through this formatter: no bulk writer on a side path
+    for f_ in write_family(p):
+        for c_ in walk_shallow(f_.node):
+            if isinstance(c_, ast.Call) and ast.unparse(c_.func).split(".")[-1] in ("savetxt", "tofile", "to_csv", "array2string", "writelines"):
+                problems.append("`%s` writes data rows without the cell formatter: NULL/NaN and the per-column formats are rendered "
+                                "differently on that path (e.g. the NULL marker through fmt instead of str(NULL))" % unparse(c_)[:60])
     fmts = [b for b in walk_shallow(fmtf.node) if isinstance(b, ast.BinOp) and isinstance(b.op, ast.Mod)]
     if not any(isinstance(b.right, ast.Name) and b.right.id == n and isinstance(b.left, ast.Name) for b in fmts):
         problems.append("a finite sample is not written as `<fmt> % <sample>`")
@@ -1463,3 +1469,47 @@ def rule_tokens_kept(ctx):
                 problems.append("tokens are filtered (`if %s`) before they are yielded" % unparse(c.ifs[0]))
     ctx.check(not problems, "DATA.TOKENS-KEPT", site, g, yl, "every token of a content line is yielded", "; ".join(problems))
     ctx.floor("DATA.TOKENS-KEPT", 1)
+
+
+def rule_subs_source(ctx):
+    """DATA.SUBS-SOURCE: the sniffer's recommendation about the hyphen substitutions (every sampled line contains a '-': drop
+    the run-on(-) substitutions, or dates such as 2018-05-22 are split) is obtained for every data section that the reference
+    engine reads: the variable compared with `regexp_subs` when the recommendation is accepted is, on every path, a result of
+    inspect_data_section (never a default such as the unmodified regexp_subs)"""
+    p = ctx.p
+    r = get_resolver(p)
+    fr = host_data(p)
+    cfg = build_cfg(p, fr)
+    rd = ReachingDefs(cfg)
+    site = READ + "#hyphen-recommendation"
+    # names that receive the sniffer's second result somewhere
+    recnames = set()
+    for a_ in walk_shallow(fr.node):
+        if isinstance(a_, ast.Assign) and isinstance(a_.value, ast.Call) and any(t.qual == SNIFF for t in r.callees(fr, a_.value)[0]):
+            for t_ in a_.targets:
+                if isinstance(t_, ast.Tuple) and len(t_.elts) == 2 and isinstance(t_.elts[1], ast.Name):
+                    recnames.add(t_.elts[1].id)
+    tests = [n for n in cfg.nodes if n.kind == "test" and n.ast is not None and any(
+        isinstance(c, ast.Compare) and isinstance(c.ops[0], (ast.NotEq, ast.Eq)) and any(
+            isinstance(x, ast.Name) and x.id in recnames for x in ast.walk(c)) for c in ast.walk(n.ast))]
+    if not tests:
+        ctx.undecided("DATA.SUBS-SOURCE", site, fr, fr.node, "no test of the sniffer's recommended substitutions found")
+        return
+    problems = []
+    for tn in tests:
+        for x in ast.walk(tn.ast):
+            if isinstance(x, ast.Name) and x.id in recnames:
+                for dn in rd.reaching(x.id, tn.id):
+                    nd = cfg.nodes[dn]
+                    a = nd.ast
+                    ok = nd.kind == "stmt" and isinstance(a, ast.Assign) and isinstance(a.value, ast.Call) and any(
+                        t.qual == SNIFF for t in r.callees(fr, a.value)[0]) and any(
+                        isinstance(t_, ast.Tuple) and len(t_.elts) == 2 and isinstance(t_.elts[1], ast.Name) and t_.elts[1].id == x.id
+                        for t_ in a.targets)
+                    if not ok:
+                        problems.append("`%s` can hold `%s` when the recommendation is examined: for such files the sniffer is not asked, "
+                                        "so the hyphen substitutions stay in force and e.g. dates are split into extra columns"
+                                        % (x.id, nd.text(60) if hasattr(nd, "text") else "?"))
+    ctx.check(not problems, "DATA.SUBS-SOURCE", site, fr, tests[0].ast, "the recommendation examined is always the sniffer's result",
+              "; ".join(dict.fromkeys(problems)))
+    ctx.floor("DATA.SUBS-SOURCE", 1)
